@@ -12,14 +12,15 @@ from mc.space import seqs, chunked
 from pykdebugparser.pykdebugparser import PyKdebugParser
 from pykdebugparser.os_log_event import OsLogEvent
 
-TIDS = [0, 1, 2]
+BIG = (1 << 32) + 1          # shares its low 32 bits with tid 1
+TIDS = [0, 1, 2, BIG]
 EVENTIDS = [0x040c0004, 0x040d0004, 0x03010090, 0x07010004, 0x01400000, 0xff000000, 0]
 SYMS = [(t, e) for t in TIDS for e in EVENTIDS]
 CLASSES = [1, 3, 4, 7, 0xff]
 SUBCLASSES = [0x40c, 0x40d, 0x301, 0x140]
 STR = {'msg': 1, 'A': 2, 'B': 3}
 LOGS = [  # (tid, pid, process-name index or None)
-    (1, 10, 2), (2, 20, 3), (1, 20, 3), (0, 10, None), (2, 10, None),
+    (1, 10, 2), (2, 20, 3), (1, 20, 3), (0, 10, None), (2, 10, None), ((1 << 32) + 1, 10, 2),
 ]
 
 
@@ -42,7 +43,7 @@ def subclass_lists():
     return out
 
 
-TID_FILTERS = [None, 0, 1, 2, 9]
+TID_FILTERS = [None, 0, 1, 2, 9, BIG]
 PROC_FILTERS = [None, 'A', '10', 'zzz', '20']
 
 
@@ -162,7 +163,7 @@ def judge_reconfigure(stream, cfgs, first_traces):
 class C12(Check):
     pid = 'C12'
     level = 'model_checking'
-    rule = ('all record streams of length <=2 (quick, tids {1,2}) / <=3 (thorough, tids {0,1,2}) over tids x 7 event ids (qualifier bits varied by '
+    rule = ('all record streams of length <=2 (quick, tids {1, 2^32+1}) / <=3 (thorough, tids {0,1,2,2^32+1}) over tids x 7 event ids (qualifier bits varied by '
             'position) in a v2 container, and of length <=1/<=2 in a v3 container together with all sequences of <=2 log '
             'records over 5 (tid,pid,process) shapes; x filter configurations: filter_tid in {None,0,1,2,9} x filter_class in '
             'all lists of <=2 over {1,3,4,7,0xff} (duplicates, tuple type) x filter_subclass in all lists of <=2 over '
@@ -178,7 +179,7 @@ class C12(Check):
 
     def shards(self):
         L = 2 if self.tier == 'quick' else 3
-        pool = [i for i, (t, e) in enumerate(SYMS) if t != 0] if self.tier == 'quick' else range(len(SYMS))
+        pool = [i for i, (t, e) in enumerate(SYMS) if t not in (0, 2)] if self.tier == 'quick' else range(len(SYMS))
         streams = list(seqs(pool, L))
         out = [('v2', ch) for ch in chunked(streams, 96 if self.tier == 'thorough' else 32)]
         L3 = 1 if self.tier == 'quick' else 2
@@ -188,7 +189,7 @@ class C12(Check):
         return out
 
     def run_reconf(self, first, acc):
-        streams = [(0, 7, 9, 14, 16, 19), tuple(range(0, 21, 2)), (3, 3, 10, 17)]
+        streams = [(0, 7, 9, 14, 16, 19), tuple(range(0, 21, 2)), (3, 3, 10, 17, 22, 27)]
         for stream in streams:
             for rest in itertools.product(range(len(RECONF)), repeat=2):
                 cfgs = [RECONF[first]] + [RECONF[i] for i in rest]
